@@ -82,7 +82,10 @@ template <class T>
 static void fail (const char* sec, const OrdInfo& o, T x, T y, T z, double err, double bound, const char* extra = "")
 {
     ++failures;
-    if (failures <= 40)
+    // at most 2 lines per (section, order, type) so that one broken member cannot hide another
+    static std::map<std::string, int> printed;
+    std::string key = std::string (sec) + ":" + o.name + ":" + tn<T> ();
+    if (++printed[key] <= 2 && printed.size () <= 400)
         printf ("RESIDUE-FAIL %s:%s:%s err=%.6g bound=%.6g angles=%.17g %.17g %.17g %s\n", sec, o.name, tn<T> (), err, bound, (double) x, (double) y,
                 (double) z, extra);
 }
